@@ -67,6 +67,8 @@ type verifEtcd struct {
 	watches []*verifWatch
 	getRevs []int64
 	getKeys []string
+	failing string // "" | "hang" (no answer until the request context is done) | "err" (immediate error)
+	failed  int    // Get attempts that failed
 }
 
 func newVerifEtcd() *verifEtcd {
@@ -93,6 +95,35 @@ func (e *verifEtcd) Revoke(ctx context.Context, id clientv3.LeaseID) (*clientv3.
 func (e *verifEtcd) Get(ctx context.Context, key string, opts ...clientv3.OpOption) (*clientv3.GetResponse, error) {
 	op := clientv3.OpGet(key, opts...)
 	isPfx := string(op.RangeBytes()) == clientv3.GetPrefixRangeEnd(key)
+	// like clientv3: a request on a context that is already done fails at once with the context's error
+	if err := ctx.Err(); err != nil {
+		e.mu.Lock()
+		e.failed++
+		e.mu.Unlock()
+		return nil, err
+	}
+	e.mu.Lock()
+	mode := e.failing
+	e.mu.Unlock()
+	switch mode {
+	case "hang":
+		var err error
+		select {
+		case <-ctx.Done():
+			err = ctx.Err()
+		case <-time.After(verifWait):
+			err = fmt.Errorf("verif: request context without deadline")
+		}
+		e.mu.Lock()
+		e.failed++
+		e.mu.Unlock()
+		return nil, err
+	case "err":
+		e.mu.Lock()
+		e.failed++
+		e.mu.Unlock()
+		return nil, fmt.Errorf("etcdserver: no leader")
+	}
 	e.mu.Lock()
 	defer e.mu.Unlock()
 	var keys []string
@@ -258,6 +289,8 @@ type verifEvent struct {
 	V     string      `json:"v"`
 	D     bool        `json:"d"`     // delivered through the watch (put/del)
 	P     int         `json:"p"`     // sub: index of the prefix subscribed
+	Fail  string      `json:"fail"`  // sub/reload: "hang" | "err": the snapshot Gets fail until the next fail_off event;
+	N     int         `json:"n"`     //   the event returns after N failed attempts, the operation stays pending
 	Items []verifItem `json:"items"` // batch: changes arriving in ONE watch response, in this order
 }
 
@@ -282,6 +315,7 @@ type verifPer struct {
 
 type verifStep struct {
 	Per   []verifPer `json:"per"`
+	Fails int        `json:"fails"` // snapshot Gets that failed during this event
 	Stuck string     `json:"stuck"` // non-empty: a barrier timed out here
 }
 
@@ -353,6 +387,64 @@ func TestVerifDriver(t *testing.T) {
 		var subs []verifSub
 		steps := []verifStep{}
 		stuck := ""
+		pending := "" // "sub" | "reload": an operation whose snapshot Get keeps failing
+		var pendingDone chan error
+		pendingOpened0 := 0
+		watching := false
+		oldTimeout := RequestTimeout
+		defer func() { RequestTimeout = oldTimeout }()
+		for _, ev := range cs.Events {
+			if ev.Fail != "" {
+				RequestTimeout = 30 * time.Millisecond // the attempts of load are bounded by this
+			}
+		}
+
+		// waits for Monitor to return and for the stream it opens; attaches the scripted connection once
+		finishSub := func(done chan error, opened0 int) string {
+			select {
+			case err := <-done:
+				if err != nil {
+					return "monitor error: " + err.Error()
+				}
+			case <-time.After(verifWait):
+				return "monitor"
+			}
+			if !verifWaitFor(func() bool { return etcd.nWatches() >= opened0+1 }) {
+				return "watch after monitor"
+			}
+			if !watching {
+				watching = true
+				cl = reg.clusters[getClusterKey(endpoints)]
+				// cluster.watchConnState with the connection replaced by a scripted one
+				// (cli.ActiveConnection() is a concrete *grpc.ClientConn)
+				watcher := newStateWatcher()
+				c, cli := cl, EtcdClient(etcd)
+				watcher.addListener(func() {
+					go c.reload(cli)
+				})
+				go watcher.watch(conn)
+				if !verifWaitFor(func() bool { return conn.nWaits(connectivity.Ready) >= 1 }) {
+					return "state watcher"
+				}
+			}
+			return ""
+		}
+		finishReload := func(opened0 int) string {
+			listened := map[int]bool{}
+			for _, s := range subs {
+				listened[s.p] = true
+			}
+			// reload stops the running streams, then per listened key loads and watches again
+			if !verifWaitFor(func() bool { return etcd.nWatches() >= opened0+len(listened) }) {
+				return "watch after reload"
+			}
+			etcd.mu.Lock()
+			for _, w := range etcd.watches[:opened0] {
+				w.dead = true
+			}
+			etcd.mu.Unlock()
+			return ""
+		}
 
 		for _, ev := range cs.Events {
 			if stuck != "" {
@@ -360,6 +452,9 @@ func TestVerifDriver(t *testing.T) {
 			}
 			gets0 := len(etcd.getRevs)
 			opened0 := etcd.nWatches()
+			etcd.mu.Lock()
+			failed0 := etcd.failed
+			etcd.mu.Unlock()
 			switch ev.T {
 			case "sub":
 				if ev.P < 0 || ev.P >= len(prefixes) {
@@ -370,32 +465,25 @@ func TestVerifDriver(t *testing.T) {
 				subs = append(subs, verifSub{l, ev.P})
 				done := make(chan error, 1)
 				key := prefixes[ev.P]
+				if ev.Fail != "" {
+					etcd.mu.Lock()
+					etcd.failing = ev.Fail
+					f0 := etcd.failed
+					etcd.mu.Unlock()
+					go func() { done <- reg.Monitor(endpoints, key, l) }()
+					pending, pendingDone, pendingOpened0 = "sub", done, opened0
+					if !verifWaitFor(func() bool { etcd.mu.Lock(); defer etcd.mu.Unlock(); return etcd.failed >= f0+ev.N }) {
+						stuck = "no failing snapshot attempt"
+					}
+					if cl == nil {
+						reg.lock.Lock()
+						cl = reg.clusters[getClusterKey(endpoints)]
+						reg.lock.Unlock()
+					}
+					break
+				}
 				go func() { done <- reg.Monitor(endpoints, key, l) }()
-				select {
-				case err := <-done:
-					if err != nil {
-						stuck = "monitor error: " + err.Error()
-					}
-				case <-time.After(verifWait):
-					stuck = "monitor"
-				}
-				if stuck == "" && !verifWaitFor(func() bool { return etcd.nWatches() >= opened0+1 }) {
-					stuck = "watch after monitor"
-				}
-				if cl == nil && stuck == "" {
-					cl = reg.clusters[getClusterKey(endpoints)]
-					// cluster.watchConnState with the connection replaced by a scripted one
-					// (cli.ActiveConnection() is a concrete *grpc.ClientConn)
-					watcher := newStateWatcher()
-					c, cli := cl, EtcdClient(etcd)
-					watcher.addListener(func() {
-						go c.reload(cli)
-					})
-					go watcher.watch(conn)
-					if !verifWaitFor(func() bool { return conn.nWaits(connectivity.Ready) >= 1 }) {
-						stuck = "state watcher"
-					}
-				}
+				stuck = finishSub(done, opened0)
 			case "put", "del":
 				etcd.mu.Lock()
 				_, present := etcd.store[ev.K]
@@ -429,13 +517,13 @@ func TestVerifDriver(t *testing.T) {
 				etcd.mu.Unlock()
 				stuck = verifDeliver(etcd, evs)
 			case "reload":
-				if cl == nil {
-					break // nothing is connected yet
+				if !watching {
+					break
 				}
-				listened := map[int]bool{}
-				for _, s := range subs {
-					listened[s.p] = true
-				}
+				etcd.mu.Lock()
+				etcd.failing = ev.Fail
+				f0 := etcd.failed
+				etcd.mu.Unlock()
 				w0 := conn.nWaits(connectivity.TransientFailure)
 				r0 := conn.nWaits(connectivity.Ready)
 				conn.set(connectivity.TransientFailure)
@@ -448,20 +536,33 @@ func TestVerifDriver(t *testing.T) {
 					stuck = "state watcher (ready)"
 					break
 				}
-				// reload stops the running streams, then per listened key loads and watches again
-				if !verifWaitFor(func() bool { return etcd.nWatches() >= opened0+len(listened) }) {
-					stuck = "watch after reload"
+				if ev.Fail != "" {
+					pending, pendingOpened0 = "reload", opened0
+					if !verifWaitFor(func() bool { etcd.mu.Lock(); defer etcd.mu.Unlock(); return etcd.failed >= f0+ev.N }) {
+						stuck = "no failing snapshot attempt"
+					}
 					break
 				}
+				stuck = finishReload(opened0)
+			case "fail_off":
+				// the registry answers again: the pending operation completes with its next attempt
 				etcd.mu.Lock()
-				for _, w := range etcd.watches[:opened0] {
-					w.dead = true
-				}
+				etcd.failing = ""
 				etcd.mu.Unlock()
+				switch pending {
+				case "sub":
+					stuck = finishSub(pendingDone, pendingOpened0)
+				case "reload":
+					stuck = finishReload(pendingOpened0)
+				}
+				pending = ""
 			}
 
 			var st verifStep
 			st.Stuck = stuck
+			etcd.mu.Lock()
+			st.Fails = etcd.failed - failed0
+			etcd.mu.Unlock()
 			for pi, pfx := range prefixes {
 				var per verifPer
 				per.Calls = [][][]string{}
